@@ -711,6 +711,19 @@ func blsCase[K bls.KeyGroup](t *rapid.T, name string, k K) {
 			alt, msg2 := flipMsg(t, msg)
 			expectReject(t, sub, "bls-"+name, "agg-"+alt, av, msg2, agg, ikm)
 		}
+		// lists of different lengths are documented to be refused ("the slices must have equal size"): extra,
+		// never-signed messages or extra keys must not be ignored silently
+		extraMsgs := append(append([][]byte{}, msgs...), []byte("never signed"))
+		expectReject(t, sub, "bls-"+name, "agg-extra-message", func(m, sg []byte) bool {
+			return bls.VerifyAggregate(pubs, extraMsgs, sg)
+		}, msg, agg, ikm)
+		extraPubs := append(append([]*bls.PublicKey[K]{}, pubs...), pubs[0])
+		expectReject(t, sub, "bls-"+name, "agg-extra-key", func(m, sg []byte) bool {
+			return bls.VerifyAggregate(extraPubs, msgs, sg)
+		}, msg, agg, ikm)
+		expectReject(t, sub, "bls-"+name, "agg-no-keys", func(m, sg []byte) bool {
+			return bls.VerifyAggregate([]*bls.PublicKey[K]{}, [][]byte{}, sg)
+		}, msg, agg, ikm)
 		if n > 1 {
 			// dropping one signer must fail
 			expectReject(t, sub, "bls-"+name, "agg-drop-signer", func(m, sg []byte) bool {
@@ -758,5 +771,42 @@ func TestC02Volume(t *testing.T) {
 		}
 		vlib.NonTrivial(sub, "stream", seed)
 		vlib.Sample(sub, "stream", fmt.Sprintf("scheme=%s seed=%x: %d messages signed and verified", name, seed, n))
+	}
+}
+
+// TestC02EdVolume: S + L (and S + k·L) must be rejected for EVERY signature, not only for most: a
+// range check that looks at part of the scalar lets a small fraction through. A stream of signatures
+// per Edwards variant, each altered by adding multiples of the order.
+func TestC02EdVolume(t *testing.T) {
+	defer vlib.Done()
+	for _, v := range edVariants() {
+		sub := "edvolume/" + v.name
+		n := vlib.N(3000, 30000)
+		seed := make([]byte, v.seedSz)
+		vlib.ExpandInto(seed, uint64(vlib.Seed)*131+uint64(vlib.Shard)*17+uint64(len(v.name)))
+		pk := v.pub(seed)
+		ctx := ""
+		if v.ctxMin >= 0 {
+			ctx = "volume"
+		}
+		msg := make([]byte, 12)
+		ks := []int64{1, 2, 3, 4, 8}
+		for i := 0; i < n; i++ {
+			vlib.ExpandInto(msg, uint64(vlib.Seed)<<40|uint64(vlib.Shard)<<32|uint64(i))
+			sig := v.sign(seed, msg, ctx)
+			k := ks[i%len(ks)]
+			alt := addOrder(sig, v.ed, k)
+			if alt == nil {
+				alt = addOrder(sig, v.ed, 1)
+			}
+			vlib.Eval(sub)
+			if v.verify(pk, msg, alt, ctx) {
+				vlib.ReportDirect(t, "C02/accepts-altered/"+v.name+"/sig-S-plus-L", fmt.Sprintf("S+%d·L accepted: seed=%x msg=%x sig=%x", k, seed, msg, alt),
+					map[string]interface{}{"variant": v.name, "seed": fmt.Sprintf("%x", seed), "msg": fmt.Sprintf("%x", msg), "sig": fmt.Sprintf("%x", alt)})
+				break
+			}
+		}
+		vlib.NonTrivial(sub, "stream", seed)
+		vlib.Sample(sub, "stream", fmt.Sprintf("variant=%s seed=%x: %d signatures, S+kL (k in 1,2,3,4,8) rejected for each", v.name, seed, n))
 	}
 }
